@@ -37,6 +37,7 @@ class UnitResult:
         self.verus_summary = {}
         self.generated = None
         self.raw_errors = []
+        self.missing_lifts = []
 
 
 def scan_trusted(text):
@@ -77,6 +78,7 @@ def run_unit(unit, repo, vfdir, scratch, rlimit=None, keep=False, extra_args=())
         res.time_s = time.time() - t0
         return res
     res.items, res.lifts, res.stats = ex.items, ex.lifts, ex.stats
+    res.missing_lifts = ex.missing_lifts
     gen = clean_markers(text)
     # inside-contract assume/admit is a hard error
     for n, ln in enumerate(gen.split("\n"), 1):
